@@ -27,15 +27,17 @@ def replay(model, log, max_cycles=None):
     sim = Simulator(d.dut)
     domains = list(model.clk_domains) or ["sync"]
     P = 1e-6
-    if len(domains) > 1:
-        if not model.clocks: raise MachineryError("multi-clock design without Design.clocks")
-        fast = [d_ for d_ in domains if model.clocks[d_][0] == 1]
-        if not fast: raise MachineryError("no domain with divider 1")
+    timed = bool(model.clocks)
+    if timed:
+        # declared dividers: every step is one period P of the (possibly absent) divider-1 clock; each domain that exists in
+        # the design gets a phase-locked clock; the testbench advances by time, so a design that (e.g. after a change) has
+        # lost its fastest domain is still stepped exactly like the C model.
         for d_ in domains:
+            if d_ not in model.clocks: raise MachineryError(f"no divider declared for domain {d_}")
             div, ph = model.clocks[d_]
             sim.add_clock(P * div, phase=P / 2 + ph * P, domain=d_)
-        domains = [fast[0]] + [d_ for d_ in domains if d_ != fast[0]]
     else:
+        if len(domains) > 1: raise MachineryError("multi-clock design without Design.clocks")
         sim.add_clock(P, domain=domains[0])
     omasks = [(1 << len(o)) - 1 for o in outs]
     result = {"cycles": 0, "err": None}
@@ -61,7 +63,8 @@ def replay(model, log, max_cycles=None):
             n += 1
             result["cycles"] = n
             if max_cycles and n >= max_cycles: return
-            await ctx.tick(domains[0])
+            if timed: await ctx.delay(P)
+            else: await ctx.tick(domains[0])
 
     sim.add_testbench(tb)
     sim.run()
